@@ -8,6 +8,8 @@ impl PacketHeader {
     /// Some(n) for PacketLength::Fixed(n), None for partial / indeterminate lengths
     pub uninterp spec fn ph_fixed_len(&self) -> Option<u32>;
     #[verifier::external_body]
+    pub fn tag(&self) -> (r: Tag) ensures r == self.ph_tag() { unimplemented!() }
+    #[verifier::external_body]
     pub fn new_fixed(tag: Tag, length: u32) -> (r: PacketHeader)
         ensures r.ph_tag() == tag, r.ph_fixed_len() == Some(length), r.ph_version() is New
     { unimplemented!() }
